@@ -170,7 +170,28 @@ class Opaque(Sym):
         return self is not other
 
 
-SYMS = (SymBV, SymInt, SymBool, SymFloat, SymStr, SymBytes, LazyStr)
+class SymTD(Sym):
+    __slots__ = ("us", "src")
+
+    def __init__(self, us=None, src=None):
+        self.us, self.src = us, src
+
+    def __repr__(self):
+        return f"SymTD(us={self.us}, src={self.src})"
+
+
+class SymDT(Sym):
+    __slots__ = ("us", "src")
+
+    def __init__(self, us=None, src=None):
+        self.us, self.src = us, src
+
+    def __repr__(self):
+        return f"SymDT(us={self.us}, src={self.src})"
+
+
+
+SYMS = (SymBV, SymInt, SymBool, SymFloat, SymStr, SymBytes, LazyStr, SymTD, SymDT)
 
 
 def is_sym(v):
